@@ -370,9 +370,11 @@ def batched_first_case(draw):
     c["palette"] = [draw(logu(0.1, 1.0)) for _ in range(draw(st.integers(1, 3)))]
     c["n"] = draw(st.integers(570, 900))
     c["target"] = draw(fl(-743.5, -728.0))
-    c["target_above"] = draw(fl(-640.0, -50.0))
+    c["target_above"] = draw(st.one_of(fl(-640.0, -10.0), fl(-120.0, -10.0)))
     c["order"] = draw(st.permutations([0, 1, 2]))
     c["with_beyond"] = draw(st.booleans())
+    # rows of one batch more than 1e308 apart: a scaler shared between them would lose the smaller one
+    c["target_beyond"] = draw(st.sampled_from([-775.0, -900.0, -1200.0]))
     return c
 
 
@@ -411,9 +413,9 @@ def batched_first_body(c):
     base = lengths_for(n, c["palette"], 1.0, c["lseed"])
     sub = _multiplier_for(ref, base, c["target"])
     above = _multiplier_for(ref, base, c["target_above"])
-    beyond = _multiplier_for(ref, base, -775.0)
+    beyond = _multiplier_for(ref, base, c.get("target_beyond", -775.0))
     res = Res(nontrivial=False, tags={"model": c["model"]["name"], "band": "subnormal", "shape": c["shape"], "tip": c["tip"]})
-    if not (-744.0 <= sub[2] <= -725.0) or not (-660.0 <= above[2] <= -20.0):
+    if not (-744.0 <= sub[2] <= -725.0) or not (-660.0 <= above[2] <= -5.0):
         res.labels = ("no_deep_row" if not (-744.0 <= sub[2] <= -725.0) else "no_partner_above",)
         res.key = ("skip", c["shape"], n, c["dseed"] % 1000)
         return res
